@@ -1053,6 +1053,20 @@ func jsonPath(msg json.RawMessage, p string) json.Marshaler {
 		if json.Unmarshal(msg, &m) != nil {
 			return msg
 		}
+		key := p
+		if i := strings.IndexRune(p, '.'); i >= 0 {
+			key = p[:i]
+		}
+		if _, ok := m[key]; !ok && len(m) > 0 {
+			// Without type information we can't tell a struct from a
+			// typed map.  This isn't a struct with such a member, so
+			// treat it as a map of structs, like the array case.
+			result := make(MarshalerMap, len(m))
+			for k, v := range m {
+				result[k] = jsonPath(v, p)
+			}
+			return result
+		}
 		return m.jsonPath(p)
 	case '[':
 		var arr []json.RawMessage
